@@ -1206,6 +1206,12 @@ class RTCSctpTransport(AsyncIOEventEmitter):
 
         # update reassembly
         for stream_id, stream_seq in chunk.streams:
+            # the messages the peer gave up on were sent before it reset the
+            # stream, their sequence numbers mean nothing to the stream's new life
+            reset_tsn = self._inbound_streams_reset.get(stream_id)
+            if reset_tsn is not None and uint32_gte(reset_tsn, chunk.cumulative_tsn):
+                continue
+
             inbound_stream = self._get_inbound_stream(stream_id)
 
             # advance sequence number (never move it back) and perform delivery
